@@ -1348,7 +1348,7 @@ def _loop_local_names(g, own):
     return cand - bad
 
 
-def number(fn, bound=None):
+def number(fn, bound=None, locals_too=True):
     """Rename bound names, scope by scope: comprehension / lambda variables and loop-local ``for`` targets by nesting
     depth, other locals by first occurrence (``v<i>`` in the function itself, ``s<k>_<i>`` in its k-th nested
     function).  Parameters of the function itself keep their names."""
@@ -1376,7 +1376,7 @@ def number(fn, bound=None):
             if name in env:
                 return env[name]
             if name in own:
-                return fname(name)
+                return fname(name) if (locals_too or not is_top) else name
             return outer(name)
 
         def ren(node, env, depth):
@@ -1517,7 +1517,7 @@ def _clean(node):
     return ast.parse(ast.unparse(node)).body[0]
 
 
-def canonical_ast(fn, helpers, methods=None, hier=None):
+def canonical_ast(fn, helpers, methods=None, hier=None, segment=False):
     f = _clean(fn)
     used, frontier = set(), [f]
     allh = dict(helpers)
@@ -1561,7 +1561,7 @@ def canonical_ast(fn, helpers, methods=None, hier=None):
     for _round in range(3):
         before = ast.dump(f)
         bound = frozenset(_bound(f))
-        f.body = _norm_region(f.body, "func", {"bound": bound, "root": f, "defined": params})
+        f.body = _norm_region(f.body, None if segment else "func", {"bound": bound, "root": f, "defined": params})
         split_webs(f)
         from .inline import cleanup_copies
         cleanup_copies(f)
@@ -1571,10 +1571,10 @@ def canonical_ast(fn, helpers, methods=None, hier=None):
         if ast.dump(f) == before:
             break
     bound = frozenset(_bound(f))
-    f = number(f, bound)
+    f = number(f, bound, locals_too=not segment)
     f = _Expr([f.args.vararg.arg] if f.args.vararg else (), f).visit(f)
     ast.fix_missing_locations(f)
-    f.body = _norm_region(f.body, "func", {"root": f, "defined": params, "final": True,
+    f.body = _norm_region(f.body, None if segment else "func", {"root": f, "defined": params, "final": True,
                                            "bound": frozenset(_bound(f)) | params})
     f.body = _dt_pass(f.body, hier or {})
     return f
@@ -1586,6 +1586,162 @@ def same_function(fa, fb):
         return canonical(fa, {}, {}, {}) == canonical(fb, {}, {}, {})
     except (RecursionError, Inconclusive, SyntaxError):
         return False
+
+
+# --------------------------------------------------------------------------- segment adoption
+def _seg_function(stmts, live_out):
+    body = [ast.parse(ast.unparse(st)).body[0] for st in stmts]
+    if live_out:
+        body.append(ast.Expr(value=ast.Call(func=ast.Name(id="__liveout__", ctx=ast.Load()),
+                                            args=[ast.Name(id=n, ctx=ast.Load()) for n in sorted(live_out)], keywords=[])))
+    fn = ast.FunctionDef(name="_seg", args=ast.arguments(posonlyargs=[], args=[], vararg=None, kwonlyargs=[], kw_defaults=[],
+                                                         kwarg=None, defaults=[]), body=body or [ast.Pass()],
+                         decorator_list=[], returns=None, type_comment=None, lineno=1, col_offset=0)
+    try:
+        fn.type_params = []
+    except Exception:
+        pass
+    return ast.fix_missing_locations(fn)
+
+
+def _stored(stmts):
+    out = set()
+    for st in stmts:
+        for n in ast.walk(st):
+            if isinstance(n, ast.Name) and isinstance(n.ctx, (ast.Store, ast.Del)):
+                out.add(n.id)
+            elif isinstance(n, FuncTypes + (ast.ClassDef,)):
+                out.add(n.name)
+    return out
+
+
+def _loaded_outside(fn, stmts):
+    inside = set()
+    for st in stmts:
+        for n in ast.walk(st):
+            inside.add(id(n))
+    out = set()
+    for n in ast.walk(fn):
+        if isinstance(n, ast.Name) and isinstance(n.ctx, ast.Load) and id(n) not in inside:
+            out.add(n.id)
+    return out
+
+
+class SegmentAdopter(object):
+    """Where a function as a whole is not provably the confirmed one, its statements (and runs of statements) that
+    are, taken on their own, provably equivalent to the confirmed statements at the same place are replaced by them:
+    a rule about one part of a function is then not disturbed by a rewording of another part."""
+    def __init__(self, helpers_cur, helpers_ref, meth_cur, meth_ref, hier_cur, hier_ref):
+        self.hc, self.hr, self.mc, self.mr, self.hic, self.hir = helpers_cur, helpers_ref, meth_cur, meth_ref, hier_cur, hier_ref
+        self.adopted = 0
+        self.cache = {}
+
+    def key(self, fn, stmts, cur):
+        live = _stored(stmts) & _loaded_outside(fn, stmts)
+        try:
+            f = _seg_function(stmts, live)
+            return ast.dump(canonical_ast(f, self.hc if cur else self.hr, self.mc if cur else self.mr,
+                                          self.hic if cur else self.hir, segment=True), annotate_fields=False)
+        except (RecursionError, Inconclusive, SyntaxError, _Stop):
+            return None
+        except Exception:
+            return None
+
+    def blocks(self, cfn, rfn, cblk, rblk):
+        import difflib
+        cs, rs = list(cblk), list(rblk)
+        doc = lambda b: 1 if b and isinstance(b[0], ast.Expr) and isinstance(b[0].value, ast.Constant) and isinstance(b[0].value.value, str) else 0
+        c0, r0 = doc(cs), doc(rs)
+        kc = [ast.dump(st) for st in cs[c0:]]
+        kr = [ast.dump(st) for st in rs[r0:]]
+        if kc == kr:
+            return cblk
+        ck = [self.key(cfn, [st], True) or ("?c%d" % i) for i, st in enumerate(cs[c0:])]
+        rk = [self.key(rfn, [st], False) or ("?r%d" % i) for i, st in enumerate(rs[r0:])]
+        sm = difflib.SequenceMatcher(a=ck, b=rk, autojunk=False)
+        out = list(cs[:c0])
+        for tag, i1, i2, j1, j2 in sm.get_opcodes():
+            cseg, rseg = cs[c0 + i1:c0 + i2], rs[r0 + j1:r0 + j2]
+            if tag == "equal":
+                for a_, b_ in zip(cseg, rseg):
+                    if ast.dump(a_) != ast.dump(b_):
+                        self.adopted += 1
+                        out.append(self.copy(b_, a_))
+                    else:
+                        out.append(a_)
+            elif tag == "replace":
+                ka, kb = self.key(cfn, cseg, True), self.key(rfn, rseg, False)
+                if ka is not None and ka == kb:
+                    self.adopted += 1
+                    out.extend(self.copy(b_, cseg[0]) for b_ in rseg)
+                elif len(cseg) == 1 and len(rseg) == 1 and type(cseg[0]) is type(rseg[0]):
+                    out.append(self.inside(cfn, rfn, cseg[0], rseg[0]))
+                else:
+                    out.extend(cseg)
+            elif tag == "delete":
+                out.extend(cseg)
+            # 'insert' (reference statements missing here): nothing to add
+        return out
+
+    def inside(self, cfn, rfn, c, r):
+        if isinstance(c, FuncTypes) and c.name == r.name:
+            c.body = self.blocks(c, r, c.body, r.body)
+            return c
+        if isinstance(c, ast.If) and ast.dump(c.test) == ast.dump(r.test):
+            c.body = self.blocks(cfn, rfn, c.body, r.body)
+            c.orelse = self.blocks(cfn, rfn, c.orelse, r.orelse) if c.orelse and r.orelse else c.orelse
+            return c
+        if isinstance(c, (ast.For, ast.While)) and ast.dump(getattr(c, "iter", getattr(c, "test", None))) == \
+                ast.dump(getattr(r, "iter", getattr(r, "test", None))) and (not isinstance(c, ast.For) or
+                                                                            ast.dump(c.target) == ast.dump(r.target)):
+            c.body = self.blocks(cfn, rfn, c.body, r.body)
+            return c
+        if isinstance(c, ast.With) and [ast.dump(i) for i in c.items] == [ast.dump(i) for i in r.items]:
+            c.body = self.blocks(cfn, rfn, c.body, r.body)
+            return c
+        if isinstance(c, ast.Try) and len(c.handlers) == len(r.handlers):
+            c.body = self.blocks(cfn, rfn, c.body, r.body)
+            return c
+        return c
+
+    def copy(self, ref_stmt, at):
+        new = copy.deepcopy(ref_stmt)
+        delta = getattr(at, "lineno", 1) - getattr(ref_stmt, "lineno", 1)
+        for n in ast.walk(new):
+            if hasattr(n, "lineno"):
+                n.lineno = n.lineno + delta
+            if getattr(n, "end_lineno", None) is not None:
+                n.end_lineno = n.end_lineno + delta
+        return new
+
+
+def adopt_segments(tree, ref_tree, hier_cur=None, hier_ref=None, skip=()):
+    """statement-level adoption inside the units that differ from the reference; returns {unit key: count}"""
+    helpers_cur, helpers_ref = helper_table(tree), helper_table(ref_tree)
+    meth_cur, meth_ref = method_tables(tree), method_tables(ref_tree)
+    ref = {k: n for k, n, _, _ in units(ref_tree)}
+    done = {}
+    for key, node, container, idx in units(tree):
+        r = ref.get(key)
+        if r is None or key in skip or not isinstance(node, FuncTypes) or not isinstance(r, FuncTypes):
+            continue
+        # nodes of an analysed tree carry back-links: work on clean statement copies is done inside key();
+        # the comparison of raw dumps needs link-free dumps, which ast.dump gives (it ignores unknown attributes)
+        if ast.dump(node) == ast.dump(r):
+            continue
+        cls = key.split(".")[0] if "." in key else None
+
+        def mt(tables, hier):
+            out = {}
+            for b in (hier or {}).get(cls, ()):
+                out.update(tables.get(b, {}))
+            out.update(tables.get(cls, {}))
+            return out
+        ad = SegmentAdopter(helpers_cur, helpers_ref, mt(meth_cur, hier_cur), mt(meth_ref, hier_ref), hier_cur, hier_ref)
+        node.body = ad.blocks(node, r, node.body, r.body)
+        if ad.adopted:
+            done[key] = ad.adopted
+    return done
 
 
 def lambda_to_def(assign):
